@@ -205,7 +205,8 @@ def replay(pl):
         decl2 = [{'name': 'a', 'type': float, 'min': 0.5, 'max': 4.0, 'default': 1.25},
                  {'name': 'b', 'type': int, 'min': 2, 'max': 60, 'default': 14}]
         for explicit in (None, {'a': 3.5, 'b': 7}):
-            for dna in ('', 'K]'):
+            # genes that are special characters elsewhere (backslash, brackets, quotes-free punctuation) are letters of the alphabet, too
+            for dna in ('', 'K]', '\\\\', '\\(', 'w\\', '`^'):
                 for decl in ([], decl2):
                     if dna and not decl:
                         continue
